@@ -225,27 +225,8 @@ func main() {
 				c.OracleOK()
 			}
 		}
-		// malformed byte lengths for ValueFromBytes
-		for _, ln := range []int{0, 1, 2, 3, 4, 5, 7, 8, 9, 16, 31, 32, 33} {
-			b := make([]byte, ln)
-			c.Rng.Read(b)
-			var back registers.Register
-			var err error
-			panicked, _ := gal.Recover(func() { back, err = registers.ValueFromBytes(p.ID(), b) })
-			obs := "OErr"
-			if panicked {
-				obs = "OPanic"
-			} else if err == nil {
-				obs = "(OOk " + regLit(back) + ")"
-			}
-			d := map[string]interface{}{"id": string(p.ID()), "bytes": fmt.Sprintf("%x", b)}
-			idx := c.Add("from_bytes", fmt.Sprintf("CFromBytes %s %s %s", gal.Str2(string(p.ID())), gal.Bytes(b), obs), d, ln > 0)
-			if panicked {
-				c.OracleFail(idx, fmt.Sprintf("ValueFromBytes(%s, %d bytes) panics", p.ID(), ln), "pkg/registers/marshalling.go:ValueFromBytes", d)
-			} else {
-				c.OracleOK()
-			}
-		}
+		// every byte length around the register's serialised width (widths.go)
+		runFromBytesWidths(c, p)
 	}
 	// ---- New with incompatible values / unknown ids ----
 	type nv struct {
@@ -388,6 +369,7 @@ func main() {
 	// value forms, harness-written documents, what Marshal writes, reused destinations (forms.go)
 	runForms(c)
 	runMalformed(c)
+	runWidths(c)
 	runMarshalled(c)
 	tmp, terr := os.MkdirTemp("", "c16-")
 	if terr != nil {
@@ -396,5 +378,5 @@ func main() {
 	runSequences(c, tmp)
 	_ = os.RemoveAll(tmp)
 	runNewFromRegister(c)
-	c.Finish("per register type: raw-bytes round trip and New(id, own-width value) on zero/all-ones/single-bit/all-but-one-bit/small/byte-boundary/random raw values, ValueFromBytes on 13 byte lengths, New on 13 value kinds incl. unknown id; random sub-collections (in random order) through legacy JSON and YAML; every textual form of a YAML value (0x/0X, lower/upper/mixed-case and zero-padded digits, decimal, base64:<std base64 of ValueBytes>, each plain and quoted) for every register type alone and mixed inside whole collections, with the collection the document denotes as the expected result; malformed and borderline scalars (wrong widths, broken base64, wrong-case prefixes, repeated and unknown keys); the entries json.Marshal / yaml.Marshal write, read back with plain decoders; 2-4 documents (package-written JSON/YAML, harness-written, malformed) unmarshalled one after another into ONE destination (nil, empty, filled, filled with spare capacity) directly, as a struct field and through helpers.FlagRegisters.Set; New handed a register; non-trivial = non-zero raw / non-empty collection; distinct = distinct Gallina literal")
+	c.Finish("per register type: raw-bytes round trip and New(id, own-width value) on zero/all-ones/single-bit/all-but-one-bit/small/byte-boundary/random raw values, ValueFromBytes on nil and every byte length 0..width+2, 2*width, 2*width+1 and a longer one (random / all-ones / all-zero content) judged against the register's serialised width (value iff the length is the width, then the little-endian number), unknown ids, New on 13 value kinds incl. unknown id; random sub-collections (in random order) through legacy JSON and YAML; every textual form of a YAML value (0x/0X, lower/upper/mixed-case and zero-padded digits, decimal, base64:<std base64 of ValueBytes>, each plain and quoted) for every register type alone and mixed inside whole collections, with the collection the document denotes as the expected result; malformed and borderline scalars (wrong widths, broken base64, wrong-case prefixes, repeated and unknown keys); the entries json.Marshal / yaml.Marshal write, read back with plain decoders; 2-4 documents (package-written JSON/YAML, harness-written, malformed) unmarshalled one after another into ONE destination (nil, empty, filled, filled with spare capacity) directly, as a struct field and through helpers.FlagRegisters.Set; for every register type legacy-JSON and YAML documents (alone or among healthy entries, into nil/filled destinations) with ONE entry of another width: no bytes (JSON value '', null, no value field; YAML 'base64:', '0x', '', ~, no value), one byte short, shorter, one byte long, longer, and the exact width as control, the key also in hexadecimal; New handed a register; non-trivial = non-zero raw / non-empty collection; distinct = distinct Gallina literal")
 }
